@@ -134,6 +134,17 @@ def consume(ctx, cases, results, stats, name):
     for case, res in zip(cases, results):
         if res.get("crash"):
             if not res.get("reproduced"):
+                raw = crash_raw(res.get("detail", ""))
+                if raw and not raw.startswith("#") and "stack overflow" in (res.get("detail") or "") \
+                        and not case.get("skip_loops"):
+                    # the input in flight is one the driver had put off as possibly non-terminating, and it has
+                    # several faults: whether the SDK meets the rejecting property or the endless one first
+                    # depends on Go's map iteration order. Not reproducible on demand, hence no verdict.
+                    stats["order_dependent_crashes"] = stats.get("order_dependent_crashes", 0) + 1
+                    ctx.note_drift("fatal recursion that depends on map iteration order (not reproduced twice)",
+                                   dict(input=raw[:300]))
+                    again.append(dict(case, skip_loops=True))
+                    continue
                 raise common.Infra("unreproduced worker %s on case %s" % (res["crash"], json.dumps(case)[:300]))
             if harness_frame_first(res.get("detail", "")):
                 raise common.Infra("the driver itself died (%s) on case %s:\n%s" % (res["crash"], json.dumps(case)[:300],
@@ -272,10 +283,18 @@ def run(ctx):
         raise common.Infra("TLC found %d distinct states but exported %d state lines" % (r.distinct, nstate))
     ctx.exhaustive = True
     gen_n = 60 if thorough else 20
-    deep = [50, 200, 1000, 10000, 100000] if thorough else [50, 200, 1000, 10000]
+
+    def deep_for(i):
+        # chains through the recursion of the tree; the long ones (cost grows with the depth) on a sample
+        d = [50, 200, 1000]
+        if i % (8 if thorough else 4) == 0:
+            d.append(10000)
+        if thorough and i % 200 == 0:
+            d.append(100000)
+        return d
     ncalls = 0
     for i, c in enumerate(cases):
-        c["gen"] = dict(seed=ctx.seed * 1000003 + i, n=gen_n, deep=deep)
+        c["gen"] = dict(seed=ctx.seed * 1000003 + i, n=gen_n, deep=deep_for(i))
         ctx.distinct.add("mc/" + tree_key(c))
         ncalls += sum(1 + len(s["next"]) for s in c["states"])
     for c in cases[:2]:
